@@ -79,6 +79,20 @@ func TestC36Regressions(t *testing.T) {
 		s.finalise(t, 4, 1)
 	}, "scenario:forced-change-enacted")
 
+	// Seeded change missed by the one-restart harness: handleFinalisedBlock skipped every block of the newly
+	// finalised subchain whose header key was already in the database. A crash right after the header write of
+	// the finalisation of b1 (4th of its units), restart (head b0), b1..b2 imported again, b1 finalised again
+	// (nothing written for b1, pointers moved), second restart: body / number->hash of b1 missing. This is the
+	// first scenario above with its continuation; it is kept here as a two-block chain finalised in one step so
+	// that the skipped block is also an inner block of the subchain.
+	c36RunFixed(t, "refinalise-after-crash-between-header-and-body", func(s *c36Scenario) {
+		s.importBlock(t, 0, []c36Change{c36Put("\x00\x01", 40, 0x31)}, 0, 0, false, 2)
+		s.importBlock(t, 1, []c36Change{c36Put("\x10", 33, 0x32)}, 0, 0, true, 1)
+		s.finalise(t, 2, 1)
+		s.importBlock(t, 2, []c36Change{c36Put("\x10", 2, 0x33)}, 1, 0, false, 1)
+		s.finalise(t, 3, 2)
+	}, "scenario:scheduled-change-enacted")
+
 	// finalisation of a chain of three blocks at once with an abandoned fork, then two single-block finalisations
 	c36RunFixed(t, "multi-block-finalisation", func(s *c36Scenario) {
 		s.importBlock(t, 0, []c36Change{c36Put("\x00\x01", 64, 0x21), c36Put("\x00\x01\x10", 33, 0x22)}, 0, 0, true, 1) // b1
